@@ -163,7 +163,7 @@ class C02(Sim):
             "non-trivial = >= 1 build and >= 1 observation or re-wrap of a mesh with at least edges")
     FAULT_KINDS = ["rewrap", "config_flip", "failed_attempt"]
     PROBES = ["invalid_edge_filtered", "dense_edge_attr", "sparse_edge_attr", "numpy_flavour", "tuple_flavour", "hex_cells", "tet_cells",
-              "declared_faces_on_volume", "polygon_face", "file_path", "from_arrays_path", "rewrap", "switch_off_build", "query_script", "2d_padded", "peek_dimensionality", "input_lists_reused", "two_stage_build", "first_attempt_raised", "first_attempt_accepted"]
+              "declared_faces_on_volume", "polygon_face", "file_path", "from_arrays_path", "rewrap", "switch_off_build", "query_script", "2d_padded", "peek_dimensionality", "input_lists_reused", "two_stage_build", "first_attempt_raised", "first_attempt_accepted", "rewrap_with_more_edges", "face_with_repeated_vertex"]
     QUICK_RUNS = 4000
     THOROUGH_RUNS = 400000
     BLOCK = 40
@@ -204,6 +204,8 @@ class C02(Sim):
                 self.probes["declared_faces_on_volume"] += 1
         if any(len(f) > 4 for f in s["faces"]):
             self.probes["polygon_face"] += 1
+        if s.get("degenerate"):
+            self.probes["face_with_repeated_vertex"] += 1
 
     def close(self):
         self.fs.uninstall()
@@ -248,6 +250,17 @@ class C02(Sim):
                     "retry": r.choice(["bad_edge", "config"]) if cfg["faults_on"] and r.chance(0.3) else None}
         slot = r.choice(sorted(self.slots))
         if c == "rewrapper":
+            if r.chance(0.25) and hasattr(self.slots[slot].mesh, "edges"):
+                # the built mesh is wrapped again, MORE declared edges are appended (new ones: not yet edges of the mesh, pairwise distinct; some
+                # written high index first, some invalid), and the whole is built again
+                n = len(self.spec["points"])
+                have = {tuple(sorted(int(x) for x in e)) for e in self.slots[slot].mesh.edges}
+                free = [(a, b) for a in range(n) for b in range(a + 1, n) if (a, b) not in have]
+                rows_ = [list(e) if r.chance(0.5) else [e[1], e[0]] for e in r.sample(free, min(len(free), r.randint(0, 3)))]
+                rows_ += r.sample([[1, 1], [0, n + 4], [n, 0], [2, 2]], r.randint(0, 2))
+                r.shuffle(rows_)
+                if rows_:
+                    return {"c": c, "op": "rewrap_add_edges", "slot": slot, "rows": rows_, "flavour": r.choice(["list", "tuple", "numpy"]), "how": r.choice(["class", "instanciate"])}
             return {"c": c, "op": r.choice(["rewrap_same_class", "rewrap_instanciate", "prepare_again"]), "slot": slot, "dst": slot + "r"}
         return {"c": c, "op": r.choice(["observe", "observe", "query_script"]), "slot": slot, "qseed": r.below(1 << 30)}
 
@@ -259,6 +272,14 @@ class C02(Sim):
             return not (ev["key"] == "cf" and self.spec["cells"])
         if ev.get("slot") not in self.slots:
             return False
+        if op == "rewrap_add_edges":
+            sl = self.slots[ev["slot"]]
+            if sl.switches != self.sw or not hasattr(sl.mesh, "edges"):
+                return False
+            n = len(self.spec["points"])
+            have = {tuple(sorted(int(x) for x in e)) for e in sl.mesh.edges}
+            valid = [tuple(sorted(e)) for e in ev["rows"] if e[0] != e[1] and 0 <= e[0] < n and 0 <= e[1] < n]
+            return len(set(valid)) == len(valid) and not (set(valid) & have)
         if op.startswith("rewrap") or op == "prepare_again":
             return self.slots[ev["slot"]].switches == self.sw and ev.get("dst") not in self.slots
         return True
@@ -412,7 +433,7 @@ class C02(Sim):
             nd = len(nf.faces_declared)
             if fl[:nd] != nf.faces_declared:
                 V("faces", "faces", "declared faces %r, found %r" % (nf.faces_declared, fl[:nd]))
-            if sorted(key(f) for f in fl) != sorted(nf.face_keys) or any(len(f) != len(set(f)) for f in fl):
+            if sorted(key(f) for f in fl) != sorted(nf.face_keys) or any(len(f) != len(set(f)) for f in fl[nd:]):  # (completed faces never repeat a vertex)
                 V("faces-completed-from-cells", "faces", "faces (as vertex sets) %r, expected %r" % (sorted(key(f) for f in fl), sorted(nf.face_keys)))
             # completed faces are faces of cells with the right arity
             fc = mesh.face_corners
@@ -456,6 +477,13 @@ class C02(Sim):
             if int(oe.value) != exp_elem[k] or int(oa.value) != exp_adj[k]:
                 self.violation("corner-records", after, "wrong_value", what, ac,
                                "%s: %s record %d = (element %r, owner %r), expected (%r, %r)" % (name, what, k, oe.value, oa.value, exp_elem[k], exp_adj[k]))
+
+    @staticmethod
+    def _hard(mesh):
+        if not hasattr(mesh, "edges") or not mesh.edges.has_attribute("hard_edges"):
+            return None
+        h = mesh.edges.get_attribute("hard_edges")
+        return [tuple(int(x) for x in mesh.edges[i]) for i in range(len(mesh.edges)) if bool(h[i])]
 
     def _snapshot(self, mesh):
         """full durable state through the public containers"""
@@ -565,9 +593,48 @@ class C02(Sim):
             return "ok"
         if op == "query_script":
             self.nobs += 1
+            if self.spec.get("degenerate"):
+                return "no-script"  # (connectivity queries on a face with a repeated vertex are outside C01's domain)
             return self._query_script(slot, ev)
-        # re-wrap: volatile _prepared flag lost, durable containers shared.  "building again from an already built mesh changes nothing"
         from mouette.mesh.mesh_data import RawMeshData
+        if op == "rewrap_add_edges":
+            self.faults["rewrap"] += 1
+            self.probes["rewrap_with_more_edges"] += 1
+            n = len(self.spec["points"])
+            was = self._snapshot(slot.mesh)
+            hard_before = self._hard(slot.mesh)
+            d2 = RawMeshData(slot.mesh)
+            d2.edges += rows(ev["rows"], ev["flavour"])
+            ctor = type(slot.mesh) if ev["how"] == "class" else M.mesh.mesh._instanciate_raw_mesh_data
+            o = call(ctor, d2)
+            ac = "%s/%s+%s" % (slot.path, slot.flavour, ev["flavour"])
+            # every mesh sharing the extended edge container (the wrapped one and its re-wrapped relatives) is no longer observed
+            for k_ in [k_ for k_, s_ in self.slots.items() if getattr(s_.mesh, "edges", None) is slot.mesh.edges]:
+                del self.slots[k_]
+            if not o.ok:
+                self.exc_violation("rebuild-changes-nothing", op, o, ac, "building again from a built mesh plus declared edges %r raised" % (ev["rows"],))
+            now = self._snapshot(o.value)
+            valid = [tuple(sorted(e)) for e in ev["rows"] if e[0] != e[1] and 0 <= e[0] < n and 0 <= e[1] < n]
+            got = [tuple(e) for e in now.get("edges", [])]
+            bad = [e for e in got if not (len(e) == 2 and e[0] != e[1] and 0 <= e[0] < n and 0 <= e[1] < n)]
+            if bad:
+                self.violation("invalid-edges-dropped", op, "wrong_value", "edges", ac, "appended rows %r: the rebuilt mesh keeps the invalid edges %r" % (ev["rows"], bad))
+            if any(e[0] > e[1] for e in got):
+                self.violation("edges-low-index-first", op, "wrong_value", "edges", ac, "appended rows %r: edges stored high index first: %r" % (ev["rows"], [e for e in got if e[0] > e[1]]))
+            want = sorted([tuple(e) for e in was.get("edges", [])] + valid)
+            if sorted(got) != want:
+                self.violation("edges-declared-plus-sides-once", op, "wrong_value", "edges", ac,
+                               "appended rows %r: edge list %r, expected the former edges plus the valid new ones %r" % (ev["rows"], sorted(got), want))
+            for f in ("class", "vertices", "faces", "cells", "face_corners", "cell_corners", "cell_faces"):
+                if now.get(f) != was.get(f):
+                    self.violation("rebuild-changes-nothing", op, "wrong_value", f, ac, "appending declared edges and building again changed %s" % f)
+            hard_now = self._hard(o.value)
+            if hard_now is not None and not set(hard_now) <= set(hard_before or []) | set(valid):
+                self.violation("only-declared-edges-hard", op, "wrong_value", "hard_edges", ac,
+                               "hard edges %r, declared %r" % (sorted(hard_now), sorted(set(hard_before or []) | set(valid))))
+            self.nobs += 1
+            return "ok"
+        # re-wrap: volatile _prepared flag lost, durable containers shared.  "building again from an already built mesh changes nothing"
         before = {k: self._snapshot(s.mesh) for k, s in self.slots.items()}
         self.faults["rewrap"] += 1
         self.probes["rewrap"] += 1
